@@ -271,6 +271,7 @@ class StubsStringGenerator:
         class_text, added_class_attributes = self._create_class_attribute_string(class_.attributes, inner_indentations)
 
         # Inner classes
+        own_class_generics = self.class_generics
         for inner_class in class_.classes:
             if inner_class.is_public:
                 # We set in_reexport_module to True since nested classes alone can't be reexported and are bound to
@@ -281,6 +282,8 @@ class StubsStringGenerator:
                     in_reexport_module=True,
                 )
                 class_text += f"\n{class_string}\n"
+        # The methods below belong to this class again, not to the last inner class
+        self.class_generics = own_class_generics
 
         # Methods
         class_method_text, added_class_methods = self._create_class_method_string(class_.methods, inner_indentations)
